@@ -87,7 +87,7 @@ func main() {
 	defaultsH, defaultsT := *otp.DefaultHOTPParam, *otp.DefaultTOTPParam
 	deadline := time.Now().Add(*dur)
 	p1, p2 := otp.VerifPools()
-	configs := []struct{ g, procs int }{{1, 1}, {2, 2}, {8, 4}, {64, 16}, {16, 1}}
+	configs := []struct{ g, procs int }{{64, 16}, {8, 4}, {2, 2}, {16, 1}, {1, 1}} // high concurrency first: first-use effects (lazy initialisation) must happen under contention
 	per := *dur / time.Duration(len(configs))
 	for ci, cf := range configs {
 		runtime.GOMAXPROCS(cf.procs)
@@ -242,7 +242,7 @@ func main() {
 		report(violation{"defaults-changed", "Default*Param", fmt.Sprint(*otp.DefaultHOTPParam, *otp.DefaultTOTPParam), fmt.Sprint(defaultsH, defaultsT)})
 	}
 	out := map[string]any{
-		"coverage": map[string]any{"concurrent_calls": calls, "retained_strings_rechecked": kept, "configs": "goroutines x GOMAXPROCS: 1x1, 2x2, 8x4, 64x16, 16x1; adversary on both pools; random GCs", "race_detector": raceEnabled},
+		"coverage": map[string]any{"concurrent_calls": calls, "retained_strings_rechecked": kept, "configs": "goroutines x GOMAXPROCS: 64x16, 8x4, 2x2, 16x1, 1x1; adversary on both pools; random GCs", "race_detector": raceEnabled},
 		"violations": viol,
 	}
 	json.NewEncoder(os.Stdout).Encode(out)
